@@ -34,3 +34,31 @@ Proof. exact get_av_wav_units. Qed.
 
 Example C14_example : get_av_m [(1#10, 8); (1, 2); (10, 1#2)]%Q (55#100) (55#100) == -(4#10) /\ get_av_m [(1#10, 8); (1, 2); (10, 1#2)]%Q (55#100) 20 == 0.
 Proof. split; vm_compute; reflexivity. Qed.
+
+(* --- the function as computed since F25 (ExtSnap): converted wavelengths within a RELATIVE distance tol of the first or last
+   tabulated one are moved onto it.  Away from the ends nothing changes (so the statements above apply); within the radius the
+   end's value is returned; the pattern at V is exactly -0.4 whenever the moved V is covered; nothing is moved by more than
+   tol (|lo| + |hi|), whatever the unit of the table. *)
+From SedV Require Import ExtSnap.
+Theorem C14_snap_far : forall tol tab v t,
+  ~ near tol (tab_lo tab) t -> ~ near tol (tab_hi tab) t -> ~ near tol (tab_lo tab) v -> ~ near tol (tab_hi tab) v ->
+  get_av_snap_m tol tab v t = get_av_m tab v t.
+Proof. exact get_av_snap_far. Qed.
+Theorem C14_snap_lo : forall tol tab v t, near tol (tab_lo tab) t -> ~ near tol (tab_hi tab) (tab_lo tab) ->
+  tab_lo tab <= tab_hi tab ->
+  get_av_snap_m tol tab v t == -(4#10) * fval tab (tab_lo tab) / fval tab (on_table tol tab v).
+Proof. exact get_av_snap_lo. Qed.
+Theorem C14_snap_hi : forall tol tab v t, ~ near tol (tab_lo tab) t -> near tol (tab_hi tab) t -> tab_lo tab <= tab_hi tab ->
+  get_av_snap_m tol tab v t == -(4#10) * fval tab (tab_hi tab) / fval tab (on_table tol tab v).
+Proof. exact get_av_snap_hi. Qed.
+Theorem C14_snap_at_V : forall tol tab v,
+  tab_lo tab <= on_table tol tab v -> on_table tol tab v <= tab_hi tab -> ~ fval tab (on_table tol tab v) == 0 ->
+  get_av_snap_m tol tab v v == -(4#10).
+Proof. exact get_av_snap_at_V. Qed.
+Theorem C14_snap_radius : forall tol tab x, 0 <= tol ->
+  Qabs.Qabs (on_table tol tab x - x) <= tol * Qabs.Qabs (tab_lo tab) + tol * Qabs.Qabs (tab_hi tab).
+Proof. exact on_table_moves_little. Qed.
+Example C14_snap_example :
+  let tab := [(55#100, 4); (1, 2); (2, 1)] in
+  on_table (1#100) tab (5501#10000) = 55#100 /\ get_av_snap_m (1#100) tab (5501#10000) (5499#10000) == -(4#10).
+Proof. cbv zeta. split; reflexivity. Qed.
